@@ -93,6 +93,8 @@ struct Slot {
 
 thread_local! {
     static LAST_PANIC: RefCell<Option<String>> = const { RefCell::new(None) };
+    /// true while the code under test runs inside `Local::guard` (its panics are outcomes, all others are machinery bugs)
+    static IN_GUARD: std::cell::Cell<bool> = const { std::cell::Cell::new(false) };
     static MY_SLOT: RefCell<Option<Arc<Slot>>> = const { RefCell::new(None) };
 }
 
@@ -163,6 +165,14 @@ pub fn verif_root() -> String {
     std::env::var("VERIF_ROOT").unwrap_or_else(|_| "/verif".to_string())
 }
 
+/// Run the code under test: its panics are outcomes (`Err`), not machinery failures.
+pub fn guarded<R>(f: impl FnOnce() -> R) -> Result<R, ()> {
+    let prev = IN_GUARD.with(|g| g.replace(true));
+    let r = catch_unwind(AssertUnwindSafe(f));
+    IN_GUARD.with(|g| g.set(prev));
+    r.map_err(|_| ())
+}
+
 pub fn install_panic_hook() {
     std::panic::set_hook(Box::new(|info| {
         let msg = if let Some(s) = info.payload().downcast_ref::<&str>() {
@@ -176,6 +186,11 @@ pub fn install_panic_hook() {
         if msg.starts_with("harness:") {
             // a bug in the machinery, never a verdict about the property
             eprintln!("MACHINERY-ERROR: {msg}{loc}");
+            std::process::exit(2);
+        }
+        if !IN_GUARD.with(|g| g.get()) {
+            // a panic outside the guarded call of the code under test: the machinery itself failed
+            eprintln!("MACHINERY-ERROR: harness: unguarded panic: {msg}{loc}");
             std::process::exit(2);
         }
         LAST_PANIC.with(|p| *p.borrow_mut() = Some(format!("{msg}{loc}")));
@@ -639,7 +654,9 @@ impl<'a> Local<'a> {
         let now = (self.r.start.elapsed().as_millis() as u64).max(1);
         self.slot.busy_since_ms.store(now, Ordering::Release);
         let _ = take_noncanon();
+        IN_GUARD.with(|g| g.set(true));
         let r = catch_unwind(AssertUnwindSafe(f));
+        IN_GUARD.with(|g| g.set(false));
         self.slot.busy_since_ms.store(0, Ordering::Release);
         match r {
             Ok(v) => v,
